@@ -518,7 +518,11 @@ Section Filter.
   | EvDrag (i : nat)                  (* uploadDragFiles goroutine i moves on *)
   | EvHandler (i : nat) (a : haction) (* handleTrzsz goroutine i moves on *)
   | EvPromptEnd                       (* the prompt goroutine ends: answered by the user, or its pipe was closed *)
-  | EvZmodem (z : zstate).            (* the zmodem helper process / its timers change its state *)
+  | EvZmodem (z : zstate)             (* the zmodem helper process / its timers change its state *)
+  | EvApiUpload (fs : list path) (hd : bool).
+      (* the public UploadFiles API (filter.go:150) with readable paths: refused while a transfer runs
+         or a drag is pending, else addDragFiles(files, hasDir, delay = false): the upload goroutine
+         starts without the 300 ms wait (same automaton; the model has no clock) *)
 
   Definition step (s : state) (e : event) : state * list obs :=
     match e with
@@ -530,6 +534,7 @@ Section Filter.
     | EvHandler i a => handler_step s i a
     | EvPromptEnd => (set_prompt PNone s, [])
     | EvZmodem z => (match zmodem s with Some _ => set_zmodem (Some z) s | None => s end, [])
+    | EvApiUpload fs hd => ((if transfer s || dragging s then s else add_drag fs hd s), [])
     end.
 
   Fixpoint run (s : state) (es : list event) : state * list obs :=
@@ -588,6 +593,7 @@ Section Filter.
       | Some b => match d_files (drag_detect b) with None => true | Some _ => false end
       | None => true
       end
+    | EvApiUpload _ _ => false      (* an upload the user started through the API: a stated exception *)
     | _ => true
     end.
 
@@ -642,6 +648,7 @@ Arguments EvDrag {zstate} i.
 Arguments EvHandler {zstate} i a.
 Arguments EvPromptEnd {zstate}.
 Arguments EvZmodem {zstate} z.
+Arguments EvApiUpload {zstate} fs hd.
 
 (* ------------------------------------------------------------------------------------ *)
 (* instances used by the correspondence run (ocaml/m_filter.ml): the harness never feeds a *)
